@@ -36,7 +36,10 @@ class VConfig:
         rng = np.random.default_rng(recipe["subseed"])
         ndim, N, T = recipe["ndim"], recipe["N"], recipe["T"]
         self.ndim, self.N, self.T = ndim, N, T
-        self.L = np.round(rng.uniform(3.0, 9.0, size=ndim), 3)
+        # the length unit: particle spacings of order one (reduced units), or tens / thousands of
+        # units per particle (a dilute system, coordinates in another unit): absolute thresholds
+        # on faces and volumes mean something else there
+        self.L = np.round(rng.uniform(3.0, 9.0, size=ndim), 3) * float(recipe.get("scale", 1.0))
         if recipe.get("shape") == "slab":
             self.L[0] = np.round(self.L[0] * 4.0, 3)     # very different side lengths
         ok = recipe["origin"]
@@ -94,7 +97,7 @@ class VConfig:
                 m = int(np.ceil(N ** (1.0 / ndim)))
                 grid = np.stack(np.meshgrid(*[np.arange(m)] * ndim, indexing="ij"), -1).reshape(-1, ndim)
                 pick = rng.permutation(len(grid))[:N]
-                s = (grid[pick] + 0.5) / m + rng.normal(0, 0.06 / m, size=(N, ndim))
+                s = (grid[pick] + 0.5) / m + rng.normal(0, float(recipe.get("jit", 0.06)) / m, size=(N, ndim))
                 s -= np.floor(s)
             else:
                 s = rng.random((N, ndim))
@@ -402,7 +405,8 @@ class World(WorldBase):
             cfg = self.configs[c]
             save = rng.choice([None, None, "vm_out", "vm_b.npy"])
             op = {"op": "volume_matrix", "cfg": c, "nconfig": rng.randrange(cfg.T),
-                  "deltar": rng.choice([0.01, 0.002, 0.05]), "transform": rng.random() < 0.3,
+                  "deltar": rng.choice([0.01, 0.002, 0.05, 0.01, 0.002, -0.01, -0.002]), "transform": rng.random() < 0.3,
+                  "np_scalars": rng.random() < 0.3,        # frame index and step as numpy scalars
                   "save": save, "default_ndim": bool(cfg.ndim == 2 and rng.random() < 0.3)}
             last = getattr(self, "last_vm", None)
             if last is not None and last["cfg"] in self.configs and rng.random() < 0.5:
@@ -415,7 +419,7 @@ class World(WorldBase):
                 if twins:
                     c = rng.choice(other if other and rng.random() < 0.8 else twins)
                     cfg = self.configs[c]
-                    op.update(cfg=c, nconfig=last["nconfig"], deltar=last["deltar"], transform=last["transform"], save=last["save"],
+                    op.update(cfg=c, nconfig=last["nconfig"], deltar=last["deltar"], transform=last["transform"], save=last["save"], np_scalars=last.get("np_scalars", False),
                               default_ndim=bool(cfg.ndim == 2 and last["default_ndim"]))
                     self.ctx.probe("volmat_same_request_for_a_replica" if c != last["cfg"] else "volmat_same_request_again")
             self.last_vm = op
@@ -455,6 +459,11 @@ class World(WorldBase):
                    "place": rng.choice(["inside", "inside", "inside", "face", "unwrapped"]),
                    "mem": rng.choice(["C", "C", "C", "F", "strided", "f32"]),
                    "subseed": rng.randrange(1 << 40)}
+            if rng.random() < 0.2:
+                # (the peer's 2D tessellation slows down in proportion to the box length: 1 s per call at 6000 units)
+                rec["scale"] = rng.choice([40.0, 1000.0]) if ndim == 3 else rng.choice([10.0, 40.0])
+                if rec["layout"] == "lattice":
+                    rec["jit"] = rng.choice([0.06, 0.01, 1e-3, 1e-4])      # nearly degenerate vertices: faces tiny next to the cell
             if huge:
                 # now and then several frames: more than 4 MiB of text per output file
                 rec.update(layout="hex", shape="cube", T=rng.choice([1, 1, 2] if os.environ.get("VERIF_TIER", "quick") == "quick" else [1, 2, 7]),
@@ -565,6 +574,8 @@ class World(WorldBase):
         from PyMatterSim.neighbors.freud_neighbors import VolumeMatrix
         cfg = self.configs[op["cfg"]]
         kw = {"nconfig": op["nconfig"], "deltar": op["deltar"], "transform_matrix": op["transform"]}
+        if op.get("np_scalars"):
+            kw.update(nconfig=np.int64(kw["nconfig"]), deltar=np.float64(kw["deltar"]))
         if not op.get("default_ndim"):
             kw["ndim"] = cfg.ndim
         if op.get("save"):
@@ -795,6 +806,8 @@ class World(WorldBase):
         if op.get("default_ndim") and cfg.ndim != 2:
             raise Refuse("default ndim is 2")
         kw = {"nconfig": k, "deltar": op["deltar"], "transform_matrix": op["transform"]}
+        if op.get("np_scalars"):
+            kw.update(nconfig=np.int64(k), deltar=np.float64(op["deltar"]))
         if not op.get("default_ndim"):
             kw["ndim"] = cfg.ndim
         save = op.get("save")
